@@ -170,8 +170,7 @@ pub fn check_case(acc: &mut Acc, prop: &str, c: &GraphCase, cfg: &HxCfg, all_ord
             "C19" => {
                 // run-to-run (fresh hash seeds) and across configurations: every observable, incl.
                 // every slice with the grouping of its vertices, must be identical
-                probes::unrelated_calls::<N>(false);
-                let base = probes::trace_of::<N>(c.cap, &c.ops);
+                let base = probes::trace_in_fresh_thread::<N>(c.cap, &c.ops);
                 acc.evaluations += 4;
                 let mut fs = vec![];
                 for round in 0..2 {
